@@ -73,6 +73,8 @@ type cl struct {
 	buf   []string     // projected, not yet written by a drain op
 	msgs  []sigdrv.Msg // decoded messages of the last take()
 	log   []sigdrv.Msg // every decoded message so far
+	perms string       // its permission set after its own last step (monitor sender_rights_stable)
+	seen  bool
 }
 
 type hist struct {
@@ -87,8 +89,8 @@ type hist struct {
 	tokCanon  map[string]string
 	knownIDs  map[string]bool
 	texts     map[string]bool // user supplied texts (lock messages, ...)
-	stream      string
-	mon         *monitors
+	stream    string
+	mon       *monitors
 	// silent: operations are run and monitored but no longer written to the
 	// trace (fault phase at the end of a history: the state "writer dead,
 	// still a member" does not exist in Model/Signal.v)
@@ -571,8 +573,36 @@ func (h *hist) msg(c *cl, m *smsg) sendResult {
 		sr.auth = authClass(res, ms)
 		h.op(sr.auth+" "+res.Class+" "+h.stateOf(c), "msg", args...)
 	}
+	h.rightsStable(c, "message "+m.Type+"/"+m.Kind)
 	h.prune()
 	return sr
+}
+
+// rightsStable: `privileged` is decided from the sender's permission list at
+// the moment it sends.  That list changes only when the sender's OWN loop
+// serves a permission change (or joins/leaves): whatever another connection
+// does - in particular being demoted itself - never alters it.  (A list
+// shared between two clients, or with the role table, would.)
+func (h *hist) rightsStable(actor *cl, what string) {
+	for _, x := range h.live {
+		p := fmt.Sprint(sortedCopy(x.c.Permissions()))
+		if x == actor || !x.seen {
+			x.perms, x.seen = p, true
+			continue
+		}
+		h.t.Checked("C15.sender_rights_stable")
+		if p != x.perms {
+			h.t.Fail("C15", "sender_rights_stable", fmt.Sprintf("after %s by client %d the permissions of client %d changed from %s to %s although its own loop did nothing: its next messages are marked privileged (or not) by rights it was never given (or never lost)",
+				what, actor.h, x.h, x.perms, p))
+			x.perms = p
+		}
+	}
+}
+
+func sortedCopy(l []string) []string {
+	c := append([]string{}, l...)
+	sort.Strings(c)
+	return c
 }
 
 func (h *hist) pump(c *cl) sigdrv.Result {
@@ -588,6 +618,7 @@ func (h *hist) pump(c *cl) sigdrv.Result {
 		h.op(res.Class+" "+h.stateOf(c), "pump", c.h)
 	}
 	h.mon.onPump(c)
+	h.rightsStable(c, "a service of the action queue")
 	h.prune()
 	return res
 }
@@ -613,6 +644,7 @@ func (h *hist) quiesce() {
 					h.panicked(fmt.Sprintf("action queue of client %d (quiesce)", c.h), res.Panic)
 				}
 				h.mon.onPump(c)
+				h.rightsStable(c, "a service of the action queue (quiesce)")
 			}
 		}
 		h.prune()
